@@ -281,7 +281,7 @@ func runCheck(repo, prop, tier string, keep bool, only string, verbose bool) int
 		}
 	}
 	// solve
-	smtDir := filepath.Join(verifDir, "out", "smt", prop)
+	smtDir := filepath.Join(outBase(), "smt", prop)
 	os.RemoveAll(smtDir)
 	os.MkdirAll(smtDir, 0o755)
 	var wg sync.WaitGroup
@@ -410,7 +410,7 @@ func runCheck(repo, prop, tier string, keep bool, only string, verbose bool) int
 		k := kf.match(prop, o.Name)
 		fmt.Printf("KNOWN-FINDING: property=%s %s [%s]\n", prop, k.What, o.Name)
 	}
-	replayDir := filepath.Join(verifDir, "out", "replay", prop)
+	replayDir := filepath.Join(outBase(), "replay", prop)
 	os.MkdirAll(replayDir, 0o755)
 	for _, o := range failed {
 		idx := -1
@@ -638,4 +638,13 @@ func frameOnlyRerun(P *Program, fn *ssa.Function, c *FuncContract) (out []*Oblig
 		}
 	}
 	return out
+}
+
+// outBase: where scratch output (SMT scripts, replay files) goes; relocatable so
+// that several checks of the same property can run side by side.
+func outBase() string {
+	if d := os.Getenv("VERIF_OUT_DIR"); d != "" {
+		return d
+	}
+	return filepath.Join(verifDir, "out")
 }
